@@ -29,10 +29,18 @@ def gen_selection_spec(rng, n_incompat_max=0, size=None, p_cycle=0.15, p_shared=
             i = rng.randrange(0, j)
             derive.add((nodes[i], nodes[j]))
     if not acyclic and rng.random() < p_cycle and n >= 3:
-        j = rng.randrange(1, n)
-        i = rng.randrange(j, n)
-        if i != j:
-            derive.add((nodes[i], nodes[j]))  # backward edge: a derivation cycle
+        for _ in range(rng.choice([1, 1, 2, 3])):
+            j = rng.randrange(1, n)
+            i = rng.randrange(j, n)
+            if i != j:
+                derive.add((nodes[i], nodes[j]))  # backward edge: a derivation cycle
+                if rng.random() < 0.5:
+                    derive.add((nodes[j], nodes[i]))  # ... of length two
+                if rng.random() < 0.5 and n > 3:  # both cycle nodes also derive a common node
+                    k = rng.randrange(1, n)
+                    if k not in (i, j):
+                        derive.add((nodes[i], nodes[k]))
+                        derive.add((nodes[j], nodes[k]))
     start = [nodes[0]]
     if rng.random() < p_multi_start and n > 3:
         start.append(nodes[rng.randrange(1, n)])
@@ -76,7 +84,9 @@ def gen_selection_spec(rng, n_incompat_max=0, size=None, p_cycle=0.15, p_shared=
             a, b = rng.sample(nodes, 2)
             if [a, b] not in incompat and [b, a] not in incompat:
                 incompat.append([a, b])
-    spec = {'nodes': nodes, 'derive': sorted(map(list, derive)), 'sel': sel, 'incompat': incompat, 'start': start}
+    dl = sorted(map(list, derive))
+    rng.shuffle(dl)  # the order in which edges are added to the graph is part of the input (dict / cache orders)
+    spec = {'nodes': nodes, 'derive': dl, 'sel': sel, 'incompat': incompat, 'start': start}
     if rng.random() >= p_island:
         spec = drop_unreachable(spec)
     return spec
